@@ -143,24 +143,52 @@ Proof.
   exists p'. auto.
 Qed.
 
-(* --- in key position, something that is not a string (and not one of , } { [ ) ------------------------- *)
+(* --- in key position, anything that is not a string: every byte other than the quote and } ------------------
+   (a comma directly in key position is a separator and belongs to the lead; a second comma is rejected) *)
+Lemma next_front_comma p a tok w w' s2 state :
+  cur3 (pz p) a tok ((w ++ 44 :: w') ++ s2) -> ws w -> ws w' ->
+  top (pst p) = Some state -> state = S_Array \/ state = S_ObjectKey -> is_ws (hd0 s2) = false ->
+  exists z1, cur3 z1 a (tok ++ w ++ 44 :: w') s2 /\ next p = next_body p z1 (hd0 s2) false state.
+Proof.
+  intros Hc Hw Hw' Htop Hst Hws. unfold next.
+  destruct (move_ws_spec _ _ _ _ Hc) as (z0 & Hm & H0). rewrite Hm. cbn [option_bind].
+  rewrite <- app_assoc in H0. cbn [app] in H0.
+  destruct (takew_ws w (44 :: w' ++ s2) Hw eq_refl) as [E1 E2]. rewrite E1, E2 in H0.
+  rewrite (cur3_pk0 _ _ _ _ H0). cbn [option_bind hd0]. rewrite Htop. cbn [option_bind].
+  unfold next_comma. rewrite Z.eqb_refl.
+  replace (negb (state =? S_Array) && negb (state =? S_ObjectKey)) with false
+    by (unfold S_Array, S_ObjectKey in *; lia).
+  pose proof (cur3_mv1 _ _ _ _ _ H0) as H1.
+  destruct (move_ws_spec _ _ _ _ H1) as (z1 & Hm1 & H1'). rewrite Hm1. cbn [option_bind].
+  destruct (takew_ws w' s2 Hw' Hws) as [E3 E4]. rewrite E3, E4 in H1'.
+  rewrite (cur3_pk0 _ _ _ _ H1'). cbn [option_bind].
+  exists z1. split; [|reflexivity].
+  replace (tok ++ w ++ 44 :: w') with (((tok ++ w) ++ [44]) ++ w'); [exact H1'|].
+  rewrite <- !app_assoc. reflexivity.
+Qed.
+
 Theorem rejects_nonstring_key_strong : forall p a tok lead s2 nd st,
   cur3 (pz p) a tok (lead ++ s2) -> lead_ok p lead nd -> pst p = S_ObjectKey :: st ->
-  is_ws (hd0 s2) = false ->
-  hd0 s2 <> 34 -> hd0 s2 <> 44 -> hd0 s2 <> 125 -> hd0 s2 <> 123 -> hd0 s2 <> 91 ->
+  is_ws (hd0 s2) = false -> hd0 s2 <> 34 -> hd0 s2 <> 125 ->
+  (hd0 s2 <> 44 \/ exists w w', ws w /\ ws w' /\ lead = w ++ 44 :: w') ->
   rejected_to p (len a + len tok + len lead) s2 anyb.
 Proof.
-  intros p a tok lead s2 nd st Hc Hl Hst Hws H34 H44 H125 H123 H91.
+  intros p a tok lead s2 nd st Hc Hl Hst Hws H34 H125 H44.
   assert (Htop : top (pst p) = Some S_ObjectKey) by (rewrite Hst; reflexivity).
-  destruct (next_front p a tok lead s2 nd S_ObjectKey Hc Hl Hws H44 Htop) as (z1 & H1 & Hn).
+  assert (Hfront : exists z1 nd', cur3 z1 a (tok ++ lead) s2 /\ next p = next_body p z1 (hd0 s2) nd' S_ObjectKey).
+  { destruct H44 as [H44|(w & w' & Hw & Hw' & ->)].
+    - destruct (next_front p a tok lead s2 nd S_ObjectKey Hc Hl Hws H44 Htop) as (z1 & H1 & Hn). eauto.
+    - destruct (next_front_comma p a tok w w' s2 S_ObjectKey Hc Hw Hw' Htop (or_intror eq_refl) Hws)
+        as (z1 & H1 & Hn). eauto. }
+  destruct Hfront as (z1 & nd' & H1 & Hn).
   unfold rejected_to. rewrite Hn. unfold next_body.
   pose proof (cur3_skip _ _ _ _ H1) as H2.
   assert (Hoff : len (a ++ tok ++ lead) + len (@nil Z) = len a + len tok + len lead)
     by (rewrite len_app3, len_nil; lia).
   pose proof (fun need => fail_to p _ _ _ _ need _ anyb _ H2 eq_refl Hoff I) as Hfin.
-  destruct (nd && negb (hd0 s2 =? 125) && negb (hd0 s2 =? 93) && negb (hd0 s2 =? 0)); [apply Hfin|].
-  replace (hd0 s2 =? 123) with false by lia. replace (hd0 s2 =? 125) with false by lia.
-  replace (hd0 s2 =? 91) with false by lia.
+  destruct (nd' && negb (hd0 s2 =? 125) && negb (hd0 s2 =? 93) && negb (hd0 s2 =? 0)); [apply Hfin|].
+  change (negb (S_ObjectKey =? S_ObjectKey)) with false. rewrite !andb_false_r.
+  replace (hd0 s2 =? 125) with false by lia.
   destruct (hd0 s2 =? 93).
   { cbn [S_ObjectKey S_Array Z.eqb Pos.eqb negb]. apply Hfin. }
   cbn [S_ObjectKey Z.eqb Pos.eqb]. unfold next_key. replace (negb (hd0 s2 =? 34)) with true by lia. apply Hfin.
@@ -168,21 +196,16 @@ Qed.
 
 Theorem rejects_nonstring_key_proof : forall p a tok lead s2 nd st,
   cur3 (pz p) a tok (lead ++ s2) -> lead_ok p lead nd -> pst p = S_ObjectKey :: st ->
-  is_ws (hd0 s2) = false ->
-  hd0 s2 <> 34 -> hd0 s2 <> 44 -> hd0 s2 <> 125 -> hd0 s2 <> 123 -> hd0 s2 <> 91 ->
+  is_ws (hd0 s2) = false -> hd0 s2 <> 34 -> hd0 s2 <> 125 ->
+  (hd0 s2 <> 44 \/ exists w w', ws w /\ ws w' /\ lead = w ++ 44 :: w') ->
   rejected_at p (len a + len tok + len lead).
 Proof. intros. eapply rejected_to_at. eapply rejects_nonstring_key_strong; eauto. Qed.
 
-(* ... but an opening bracket in key position is NOT rejected: the document {[1]} is not valid JSON and is
-   parsed to the end of the input without any error; the second unit is a StartArray *)
-Theorem nonstring_key_container_refuted_proof :
-  exists d units final, ~ value d /\ drive (S (length d)) (json_init d) = Done units final /\
-    err_kind final = 1 /\ map sg units = [G_StartObject; G_StartArray; G_Number; G_EndArray; G_EndObject].
-Proof.
-  exists [123; 91; 49; 93; 125]. eexists _, _. split.
-  { intros Hv. apply valid_b_value_proof in Hv. vm_compute in Hv. discriminate. }
-  split; [vm_compute; reflexivity|]. split; reflexivity.
-Qed.
+(* the documents that were accepted before fix 1c3d0a4 are now rejected at the container in key position *)
+Example ex_container_key_rejected :
+  exists tr, trace 2 (json_init [123; 91; 49; 93; 125]) = Some tr /\ grammars tr = [G_StartObject; G_Error] /\
+             map (fun up => perr (snd up)) tr = [None; Some 1].
+Proof. eexists. split; [vm_compute; reflexivity|]. split; reflexivity. Qed.
 
 (* --- an illegal byte where a token must start is reported at its own offset ------------------------------ *)
 Definition illegal_start (c : Z) : Prop :=
@@ -203,7 +226,7 @@ Proof.
   pose proof (fun need => fail_to p _ _ _ _ need _ anyb _ H2 eq_refl Hoff I) as Hfin.
   destruct (nd && negb (c =? 125) && negb (c =? 93) && negb (c =? 0)); [apply Hfin|].
   replace (c =? 123) with false by lia. replace (c =? 125) with false by lia.
-  replace (c =? 91) with false by lia. replace (c =? 93) with false by lia.
+  replace (c =? 91) with false by lia. replace (c =? 93) with false by lia. cbn [andb].
   destruct (state =? S_ObjectKey).
   { unfold next_key. replace (negb (c =? 34)) with true by lia. apply Hfin. }
   unfold next_value. replace (c =? 34) with false by lia. cbn [option_bind fst snd].
